@@ -18,7 +18,7 @@ import torch
 import inferno
 from inferno.neural import HomogeneousPoissonEncoder, HomogeneousPoissonApproxEncoder, PoissonIntervalEncoder
 
-from mc.common import Tally
+from mc.common import Tally, Guard
 from mc.pool import run_shards
 
 ID = "C19"
@@ -144,9 +144,13 @@ def shard(enc_kind, dt, steps, freq, tier):
                                     "online": online, "intensities": list(intens), "answers": list(seq)}
                             tally.add("evaluations")
                             try:
-                                out = enc(x.clone(), online=online)
+                                xin = x.clone()
+                                g = Guard(xin)
+                                out = enc(xin, online=online)
                                 if online:
                                     out = [o.clone() for o in out]
+                                # the caller's intensity tensor comes back untouched (also after an online generator is exhausted)
+                                g.release(tally, f"input-mutated:{enc_kind}:{'online' if online else 'offline'}", case)
                             except Exception as ex:
                                 tally.violation(f"exception:{enc_kind}:{'online' if online else 'offline'}:{type(ex).__name__}", case,
                                                 f"encoder raised {type(ex).__name__}: {ex}", None, repr(ex))
